@@ -289,15 +289,6 @@ theorem topLoop_bad_head (b : Block) (rest : List Block) (acc : List Item)
     simp only [topLoop, hkind, TopState.mode, hparse]
   exact ⟨_, this⟩
 
-theorem specSegs_append : ∀ (a b : List SegSpec) (k : Nat), ∃ k', specSegs k (a ++ b) = specSegs k a ++ specSegs k' b := by
-  intro a
-  induction a with
-  | nil => intro b k; exact ⟨k, rfl⟩
-  | cons s rest ih =>
-    intro b k
-    obtain ⟨k', h⟩ := ih b (k + s.size)
-    exact ⟨k', by simp only [List.cons_append, specSegs, h]⟩
-
 theorem docSpecs_append : ∀ (pre l : List Decl) (first : Bool), ∃ f, docSpecs first (pre ++ l) = docSpecs first pre ++ docSpecs f l := by
   intro pre
   induction pre with
